@@ -94,7 +94,7 @@ def wrap(place, lines, w):
 class C12(Engine):
     prop = "C12"
     title = "failure is atomic"
-    quick_budget = 60
+    quick_budget = 45
     thorough_budget = 900
     rule = ("run i = history of 3-8 operations on one persistent SimFs workspace (set valid source from the 45-CPU corpus with "
             "labels/.db/macros/.if/.include; single-point corruption of %d kinds x %d placements; plant stale output; assemble with "
